@@ -158,7 +158,8 @@ class Lifter:
             if self.is_find(sid):
                 return Ent('FOUND', sid[3][0], sid[4] or 0, sid)
             if sid[0] == 'ld' and isinstance(sid[2], tuple) and sid[2][0] == 'fld' and sid[2][2] == 'm_keyed_elements_position':
-                n = self.node_entity(unld_node(sid[2][1]))
+                base = sid[2][1]
+                n = self.node_entity(base if (isinstance(base, tuple) and base[0] == 'q') else unld_node(base))
                 return Ent('VIA', n.key(), 0, sid)
             if sid[0] == 'fld' and sid[2] == 'first' and sid[1][0] == 'res':
                 return Ent('NEW', sid[1][1], 0, sid)
@@ -249,6 +250,8 @@ class Lifter:
                 return self.sid_entity(loc[1][1])
             if loc[0] == 'deref':
                 return self.node_entity(loc[1])
+            if loc[0] == 'q' and loc[1] in ('front', 'back') and loc[2] in self.aux:
+                return self.node_entity(loc)
         return Ent('OTHER', None, 0, loc)
 
     def node_entity(self, it):
@@ -261,8 +264,10 @@ class Lifter:
                 return Ent('TTLOF', e.key(), 0, it)
             if it[0] == 'adv' and it[2][0] == 'q' and it[2][1] == 'end':
                 return Ent('FROMEND', it[1], it[3], it)
-            if it[0] == 'q' and it[1] == 'begin':
+            if it[0] == 'q' and it[1] in ('begin', 'cbegin', 'front'):
                 return Ent('FRONT', None, it[4] or 0, it)
+            if it[0] == 'q' and it[1] == 'back':
+                return Ent('FROMEND', -1, it[4] or 0, it)
         return Ent('OTHER', None, 0, it)
 
     def field_of_elem(self, loc):
@@ -295,6 +300,8 @@ class Lifter:
             return ('HASVAL', (v,), True)
         if isinstance(t, tuple) and t[0] == 'q' and t[1] == 'empty' and t[2] == self.index:
             return ('NONEMPTY', (), False)
+        if isinstance(t, tuple) and t[0] == 'q' and t[1] == 'empty' and t[2] in self.aux:
+            return ('AUX_NONEMPTY', (self.aux[t[2]][0],), False)
         if isinstance(t, tuple) and t[0] == 'p':
             if t[1] == 'peek':
                 return ('PEEK', (), True)
@@ -526,7 +533,7 @@ class Segment:
             if k == 'cond':
                 kind, args, pol = L.classify(e[1])
                 truth = (e[2] == pol)
-                self.conds.append((kind, args, truth, e[3], e[1]))
+                self.conds.append((kind, args, truth, e[3], e[1], e[2]))
                 self.order.append(('cond', len(self.conds) - 1))
             elif k == 'loop':
                 lp = e[1]
@@ -579,6 +586,9 @@ class Segment:
                         return Effect('AUX_ERASE_RANGE', site, aux=an, first=args[0], last=args[1])
                     a = args[0] if args else None
                     return Effect('AUX_DEL', site, aux=an, ent=self.backptr_owner(a), arg=a)
+                if name in ('pop_front', 'pop_back'):
+                    ent = Ent('FRONT', None, 0, None) if name == 'pop_front' else Ent('FROMEND', -1, 0, None)
+                    return Effect('AUX_DEL', site, aux=an, ent=ent, arg=None, how=name)
                 if name == 'splice':
                     return Effect('AUX_MOVE', site, aux=an, dest=args[0], node=args[2] if len(args) > 2 else None,
                                   ent=self.backptr_owner(args[2]) if len(args) > 2 else None, nargs=len(args))
@@ -708,6 +718,18 @@ class Segment:
         return Ent('OTHER', None, 0, a)
 
     # ---- queries --------------------------------------------------------------------------------
+    def decided(self, term):
+        """truth of `term` if the path branched on exactly this term, else None"""
+        t = term
+        neg = False
+        while isinstance(t, tuple) and t and t[0] == 'not':
+            t = t[1]
+            neg = not neg
+        for c in self.conds:
+            if c[4] == t:
+                return c[5] != neg
+        return None
+
     def cond(self, kind):
         """truth of the first occurrence of predicate `kind` on this segment, or None"""
         for c in self.conds:
@@ -727,7 +749,7 @@ class Segment:
 
     def valuation(self):
         out = []
-        for kind, args, truth, site, raw in self.conds:
+        for kind, args, truth, site, raw, rawtruth in self.conds:
             a = ','.join(repr(x) if isinstance(x, Ent) else (show(x) if isinstance(x, tuple) else str(x)) for x in args
                          if not (isinstance(x, tuple) and x and x[0] in ('now', 'ld')))
             out.append('%s%s%s' % ('' if truth else '!', kind, '(%s)' % a if a else ''))
@@ -766,7 +788,7 @@ def feasible(seg):
             return False, 'index-reached node is BOUND (has_value() true)'
     # same predicate decided both ways on unchanged state
     seen = {}
-    for kind, args, truth, site, raw in seg.conds:
+    for kind, args, truth, site, raw, rawtruth in seg.conds:
         if kind in ('OTHER',):
             continue
         key = (kind, tuple(a.key() if isinstance(a, Ent) else a for a in args))
